@@ -35,6 +35,7 @@ pub struct Core {
     pub restarts: u64,
     pub gone: Option<String>,
     pub drop_after: Vec<String>,
+    pub extmon: bool,
 }
 
 pub async fn base_config() -> Config {
@@ -56,8 +57,10 @@ impl Core {
     pub async fn new(meaning: Map<String, Value>, proj: bool) -> Core {
         // header field "extmon": the server's extended monitoring of subscriptions, locks and connection times
         let mut cfg = base_config().await;
-        cfg.extended_monitoring = meaning.get("__extmon").and_then(|x| x.as_bool()).unwrap_or(false);
+        let extmon = meaning.get("__extmon").and_then(|x| x.as_bool()).unwrap_or(false);
+        cfg.extended_monitoring = extmon;
         Core {
+            extmon,
             wb: Worterbuch::with_config(cfg),
             names: Names::new(meaning),
             subs: BTreeMap::new(),
@@ -344,6 +347,7 @@ impl Core {
                 std::fs::create_dir_all(&dir).expect("mkdir");
                 let mut cfg = base_config().await;
                 cfg.use_persistence = true;
+                cfg.extended_monitoring = self.extmon;
                 cfg.persistence_mode = worterbuch::PersistenceMode::Json;
                 cfg.data_dir = dir.to_string_lossy().to_string();
                 worterbuch::verif::unlock_persistence();
